@@ -449,6 +449,7 @@ func (r *runnableStep) Start(_ map[string]any, runID string, stageChangeHandler 
 		stageChangeHandler: stageChangeHandler,
 		logger:             r.logger,
 	}
+	rs.wg.Add(1) // Counted before the goroutine starts so that Close cannot miss it.
 	go rs.run()
 	return rs, nil
 }
@@ -577,8 +578,8 @@ func (r *runningStep) ForceClose() error {
 	return r.Close()
 }
 
+// Note: Caller must add 1 to the waitgroup before calling.
 func (r *runningStep) run() {
-	r.wg.Add(1)
 	defer func() {
 		r.logger.Debugf("foreach run function done")
 		r.wg.Done()
